@@ -58,6 +58,7 @@ class ModelInner:
         self.frozen = False
         self.pre_mutation = None  # hook(kind, args) called before each primitive (C16 interference)
         self.fail_paths = {}  # path -> exception to raise when a file is *placed* there (fault injection)
+        self.two_step_writes = False  # model create/truncate and content write as two crash points (C15)
         self.reverse_listing = False  # directory listing order is unspecified: harnesses may flip it
 
     # ------------------------------------------------------------------ helpers
@@ -231,6 +232,19 @@ class ModelInner:
             raise IsADirectoryError(errno.EISDIR, "Is a directory", p)
         if q in self.fail_paths:
             raise self.fail_paths[q]
+        if self.two_step_writes and len(data) > 0:
+            # open(O_CREAT|O_TRUNC) and the write of the content are separate crash points (C15): a crash in between
+            # leaves an empty file under that name
+            if self._mut("create", q):
+                if q in self.files:
+                    self.files[q].data = b""
+                    self.files[q].mtime = self._tick()
+                else:
+                    self.files[q] = Ino(self._newino(), b"", mode & ~self.umask, self._tick())
+            if self._mut("write", q, len(data)):
+                self.files[q].data = data
+                self.files[q].mtime = self._tick()
+            return
         if self._mut("write", q, len(data)):
             if q in self.files:
                 i = self.files[q]
